@@ -3830,3 +3830,50 @@ mod verif_seam {
         }
     }
 }
+
+// Verification seam (H-EXEC). Compiled only with `--cfg scylla_verif`; purely additive. A placeholder
+// `Connection` that owns no socket and no router task: the request-execution loop only needs an
+// `Arc<Connection>` to hand to the per-attempt closure (and reads its address / shard info), and the
+// verification harness' scripted closure never sends anything on it.
+#[cfg(scylla_verif)]
+impl Connection {
+    pub(crate) fn verif_exec_placeholder(connect_address: SocketAddr) -> Connection {
+        // A handle to a future that is never polled; nothing is spawned.
+        let (worker, _worker_handle) = async {}.remote_handle();
+        drop(worker);
+        let (submit_channel, _task_receiver) = mpsc::channel::<Task>(1);
+        let (orphan_notification_sender, _orphan_receiver) = mpsc::unbounded_channel::<RequestId>();
+        Connection {
+            _worker_handle,
+            connect_address,
+            config: HostConnectionConfig {
+                local_ip_address: None,
+                shard_aware_local_port_range: ShardAwarePortRange::EPHEMERAL_PORT_RANGE,
+                compression: None,
+                tcp_socket_options: TcpSocketOptions::default(),
+                timestamp_generator: None,
+                event_sender: None,
+                tls_config: None,
+                connect_timeout: std::time::Duration::from_secs(5),
+                default_consistency: Default::default(),
+                authenticator: None,
+                address_translator: None,
+                write_coalescing_delay: None,
+                keepalive_interval: None,
+                keepalive_timeout: None,
+                tablet_sender: None,
+                identity: SelfIdentity::default(),
+            },
+            features: ConnectionFeatures::default(),
+            router_handle: Arc::new(RouterHandle {
+                submit_channel,
+                request_id_generator: AtomicU64::new(0),
+                orphan_notification_sender,
+                keepalive_hint: Notify::new(),
+            }),
+            #[cfg(test)]
+            socket: socket2::Socket::new(socket2::Domain::IPV4, socket2::Type::STREAM, None)
+                .expect("socket"),
+        }
+    }
+}
